@@ -40,8 +40,36 @@ conflicts, no new unversioned files; the new shelf id is not among the active
 ones and exceeds them, listing = before + {id}, deletion removes exactly that
 id, the other shelves keep their message.
 
-Mutants this was built against are listed at the end of this docstring once the
-self-test is done.
+Findings on the unchanged tree (families computed from the concrete input; the
+model has a Variant flag for each and the flags are PROBED on the code under
+test, so the check stays consistent once a defect is repaired):
+  executable-bit-dropped-by-shelve   a shelved addition / deletion / kind change re-creates or stores a file
+                                     through create_from_tree without its executable bit
+  unshelve-loses-uncommitted-executable-flip
+                                     Merge3Merger._entries3 reads THIS's executable bit from the working tree's
+                                     recorded inventory entry: an uncommitted chmod on a file whose text was
+                                     shelved is lost on unshelve
+  shelved-deletion-path-reoccupied   shelve_deletion takes another versioned file at the deleted file's old path
+                                     for a kept copy (existing_path): shelve --all is refused, shelving only the
+                                     deletion leaves an inventory with two entries for one path
+  unshelve-onto-replaced-path        (only reachable once the previous one is repaired) PreviewTree._path2trans_id
+                                     resolves a path to a deleted entry although a new entry has the name
+Not the property (counted in the evidence only): selections that are not closed
+(the stored tree would not be a tree: e.g. a move into an added directory
+without the directory) are accepted and write a shelf that cannot be read
+(NoFinalPath) or that merges with conflicts; a refused selection leaves its
+already written shelf file behind.
+
+Mutants this was built against (scratch worktree; all caught by the oracle with
+a concrete input unless noted): shelve_rename restoring names[1]; new_shelf =
+len(active)+1 (id collision after a deletion); shelve_modify_target storing the
+basis target; Shelver._select_hunks without the `selected = not selected`
+inversion; active_shelves unsorted (last_shelf wrong); shelve_deletion with
+`version = versioned[1]`; _inverse_lines returning the whole working text
+(caught by the stored-tree oracle / model comparison only: the restore itself
+still works).  Equivalent, not caught by design: Merge3(new, work, target)
+with the two sides swapped.  Harmless rewrite kept clean: shelve_change as a
+dispatch table, active_shelves as a comprehension.
 """
 import io
 import os
@@ -61,8 +89,21 @@ RULE = ("scenario = (tree format, random basis tree, 1..6 random pending changes
         "atomic shelvable items: add / delete / rename / kind / target / each text hunk); all subsets of <= 6 items, "
         "sampled above; non-trivial = the subset is non-empty and proper or mixes aspects of one id; distinct by "
         "(basis, working tree, selection)")
-ASSUMPTIONS = []
-TRUSTED = []
+ASSUMPTIONS = [
+    "the text merge synchronises on the unchanged gaps between hunks, i.e. merging two texts that differ from the basis in "
+    "disjoint hunks is chunk-wise (checked per case: the real shelf text and the real unshelved text are compared with the model)",
+    "a versioned file that is missing from disk is treated as deleted (iter_changes reports kind None); after unshelve it is "
+    "unversioned instead of missing; an added file that is missing, and a `remove --keep` copy that was edited, are not generated",
+    "selections are closed under their dependencies (remaining tree and stored tree are well-formed); the others form a counted "
+    "excluded stream compared on accept / reject and on the remaining working tree only",
+    "git working trees refuse shelving (ShelvingUnsupported): checked, nothing else to verify there",
+]
+TRUSTED = [
+    "the recorded executable bits of the working tree after shelving (dirstate stat-cache state) are an observed input of the "
+    "merge model, universally quantified in the theorems",
+    "the harness's segmentation of a text pair into gap / hunk chunks from the real diff's hunks, and its decoding of chunk codes",
+    "C18.threeWay is the model of Merge3Merger._three_way (tied by C18); the merge model of C15 has the structure of C17's",
+]
 
 ROOT = b"TREE_ROOT"
 NAMES = ["a", "b", "c", "d", "e", "f", "g", "h"]
@@ -1012,9 +1053,16 @@ def probe_variant():
     with open(d + "/t", "wb") as f:
         f.write(b"replacement\n")
     wt.add(["t"], ids=[b"t2-id"])
+    from breezy import shelf
     try:
-        _shelve_all_unshelve(wt)
-        pathcheck = True
+        with wt.lock_tree_write():
+            cr = shelf.ShelfCreator(wt, wt.basis_tree())
+            try:
+                cr.shelve_all()
+                wt.get_shelf_manager().shelve_changes(cr)
+            finally:
+                cr.finalize()
+        pathcheck = dump_wt(d)[0].get(b"t-id", (None,) * 5)[3] == b"a\nb\nc\n"
     except Exception:  # noqa
         pathcheck = False
     return keep, fresh, pathcheck
@@ -1026,6 +1074,7 @@ def probe_variant():
 F_EXEC = "executable-bit-dropped-by-shelve"
 F_STALE = "unshelve-loses-uncommitted-executable-flip"
 F_REOCC = "shelved-deletion-path-reoccupied"
+F_REOCC_U = "unshelve-onto-replaced-path"
 
 
 def selected_kinds(an, sel):
@@ -1144,17 +1193,21 @@ def check_result(ctx, sc, an, enc, sel, via, res, variant):
         if not is_closed:
             ctx.count("excluded:selection-not-closed")
             ctx.count("excluded-outcome:" + (res.get("uerr") or ("conflicts" if res.get("nconf") else "quiet")))
+        elif "S" in res and diff_dumps(expS, res["S"]):
+            dd = diff_dumps(expS, res["S"])
+            ctx.violation(case, "the stored shelf tree is not (basis + exactly the selected changes): %r" % (
+                [(f.decode(), a) for f, a, e, g in dd][:4],), family=classify_exec(an, sel, dd, 2, rec1, w1))
         elif "uerr" in res:
-            ctx.violation(case, "unshelving failed: %s %s" % (res["uerr"], res.get("uerrtext")), family=F_REOCC if reocc else None)
+            ctx.violation(case, "unshelving failed: %s %s" % (res["uerr"], res.get("uerrtext")), family=F_REOCC_U if reocc else None)
         else:
             w2 = res["d2"][0]
             dd = diff_dumps(an["W"], w2)
             if dd:
                 ctx.violation(case, "unshelving onto the unchanged tree does not restore it: %r" % (
                     [(f.decode(), a, e and e[4], g and g[4]) if a == ["exec"] else (f.decode(), a) for f, a, e, g in dd][:4],),
-                    family=classify_exec(an, sel, dd, 2, rec1, w1) or (F_REOCC if reocc else None))
+                    family=classify_exec(an, sel, dd, 2, rec1, w1) or (F_REOCC_U if reocc else None))
             if res["nconf"] or res["d2"][3]:
-                ctx.violation(case, "unshelving reported %r conflicts" % (res["nconf"] or res["d2"][3]), family=F_REOCC if reocc else None)
+                ctx.violation(case, "unshelving reported %r conflicts" % (res["nconf"] or res["d2"][3]), family=F_REOCC_U if reocc else None)
             new = set(res["d2"][2]) - set(an["strays"])
             if new:
                 ctx.violation(case, "unshelving left new unversioned files: %r" % sorted(new))
@@ -1305,7 +1358,7 @@ def run_manager(ctx, idx):
                 if after != exp or (out == "ok") != (k in before):
                     ctx.violation(dict(case, op="delete", k=k), "delete_shelf(%d): before %r after %r (%s)" % (k, before, after, out))
             messages.pop(k, None)
-        elif r < 0.9 and before:
+        elif r < 0.9 and before and not strays_present:
             k = mgr.last_shelf()
             wt2 = WorkingTree.open(d)
             with wt2.lock_tree_write():
